@@ -943,7 +943,7 @@ class Exec:
                 return a
             raise Unsupported('cast ' + kind)
         # references
-        m = re.match(r'&(?:mut |raw const |raw mut )?(.*)$', r)
+        m = re.match(r'&(?:mut |raw const |raw mut |fake shallow |fake deep |fake )?(.*)$', r)
         if m and not r.startswith('&&'):
             node = self.parse_place(m.group(1))
             loc, rng = self.place_loc(st, fr, node)
